@@ -168,9 +168,11 @@ def run_forest(sh, ctx):
 				model[j].parent = model[j + 1]
 			gt = [rng.randrange(L) for _ in range(len(gt))]
 			ctx.count('lineages_deeper_than_recursion_limit')
-		otaxa = orm.make_taxa(model)
+		ftype = ('bool', 'numpy', 'int')[i % 3]
+		otaxa = orm.make_taxa(model, flags=ftype)
+		ctx.count(f'forest_report_flags_given_as:{ftype}')
 		genomes = orm.make_genomes(otaxa, gt)
-		w = dict(parents=[mi(t.parent) for t in model], thresholds=[t.thr for t in model], report=[t.report for t in model], genome_taxa=gt, dists=[float(d) for d in dists])
+		w = dict(parents=[mi(t.parent) for t in model], thresholds=[t.thr for t in model], report=[t.report for t in model], genome_taxa=gt, dists=[float(d) for d in dists], report_flag_type=ftype)
 		res = gc.classify(genomes, dists)
 		ctx.case(('forest', w['parents'], w['thresholds'], gt, w['dists']), nontrivial=any(t.thr is not None for t in model), sample=w if i < 1 else None)
 		if (dists == dists.min()).sum() > 1:
@@ -208,6 +210,23 @@ def run_e2e(sh, ctx):
 					nx = ex['per'][gi]['next']
 					if nx is not None and qi % 2 == 0:
 						nx.report = False
+		tie_made = False
+		if wi % 2 == 0 and len(w.genomes) >= 3:      # even worlds are the ones queried with report_closest 1 or 3 below
+			# constructed, not left to the draw: an exact tie at the minimum between genomes of DIFFERENT lineages (copies of the closest
+			# genome's signature filed under unrelated taxa), with more genomes than the caller's report_closest
+			ex0 = w.expected_nonstrict(0)
+			g0 = ex0['closest_candidates'][0]
+			t0 = w.taxa[w.genomes[g0]['taxon']]
+			made = 0
+			for gj, g in enumerate(w.genomes):
+				tj = w.taxa[g['taxon']]
+				if gj != g0 and not TX.is_ancestor_or_self(tj, t0) and not TX.is_ancestor_or_self(t0, tj) and (made == 0 or rng.random() < 0.5):
+					g['sig'] = list(w.genomes[g0]['sig']); g['sigset'] = set(g['sig'])
+					made += 1
+			tie_made = bool(made)
+			if made:
+				w._dist_cache = {}
+				ctx.count('e2e_worlds_with_constructed_tie_between_lineages')
 		d = w.write_db(ctx.workdir / f'w{wi}')
 		qs = w.write_query_sigs(ctx.workdir / f'w{wi}_q.gs')
 		desc = w.describe()
@@ -232,33 +251,37 @@ def run_e2e(sh, ctx):
 			if (mine.classify_strict, mine.report_closest) != (False, [1, 2, 3, 1][wi % 4]):
 				ctx.count('callers_params_object_changed')
 			results = query(db, qsigs, inputs=[q['label'] for q in w.queries]) if wi % 2 else query(db, qsigs, mine, inputs=[q['label'] for q in w.queries])
-			key2t = {info['key']: t for t, info in zip(w.taxa, w.tinfo)}
-			for qi, item in enumerate(results.items):
-				exp = w.expected_nonstrict(qi)
-				cr = item.classifier_result
-				ck = cr.closest_match.genome.key
-				cand = {w.genomes[gi]['key']: gi for gi in exp['closest_candidates']}
-				ctx.case(('e2e-api', wi, sh['sub'], qi), nontrivial=True)
-				ctx.count('e2e_api_queries')
-				ww = dict(world=desc, query=qi)
-				if ck not in cand or float(cr.closest_match.distance) != exp['dmin']:
-					ctx.violation('closest-not-minimum', f'API: closest {ck} d={cr.closest_match.distance!r}; minimum {exp["dmin"]!r} at {sorted(cand)}', ww)
-					continue
-				e = exp['per'][cand[ck]]
-				got = dict(pred=None if cr.predicted_taxon is None else cr.predicted_taxon.key, next=None if cr.next_taxon is None else cr.next_taxon.key,
-				           report=None if item.report_taxon is None else item.report_taxon.key)
-				want = dict(pred=None if e['pred'] is None else w.tinfo[e['pred'].i]['key'], next=None if e['next'] is None else w.tinfo[e['next'].i]['key'],
-				            report=None if e['report'] is None else w.tinfo[e['report'].i]['key'])
-				if exp['dmin'] in [t.thr for t in w.taxa]:
-					ctx.count('e2e_distance_exactly_on_a_threshold')
-				if e['next'] is not None and not e['next'].report:
-					ctx.count('e2e_next_taxon_is_a_hidden_one')
-				for f in ('pred', 'next', 'report'):
-					if got[f] != want[f]:
-						mech = {'pred': 'prediction-wrong', 'report': 'report-taxon-wrong'}.get(f) or ('next-taxon-without-threshold' if got[f] and key2t[got[f]].thr is None else 'next-taxon-wrong')
-						ctx.violation(mech, f'API: {f} = {got[f]} expected {want[f]} (closest {ck}, d={exp["dmin"]!r})', ww)
-				if (cr.primary_match is not None) != (want['pred'] is not None):
-					ctx.violation('primary-match', 'API: primary match presence differs from prediction presence', ww)
+			# worlds with a constructed tie between lineages are also queried with every small list length (which of the tied genomes a
+			# partial sort puts first is its own business - the closest MATCH must stay consistent with the prediction for each)
+			all_results = [results] + ([query(db, qsigs, QueryParams(report_closest=N_), inputs=[q['label'] for q in w.queries]) for N_ in (1, 2, 3, 4) if N_ < len(w.genomes)] if tie_made else [])
+			for results in all_results:
+				key2t = {info['key']: t for t, info in zip(w.taxa, w.tinfo)}
+				for qi, item in enumerate(results.items):
+					exp = w.expected_nonstrict(qi)
+					cr = item.classifier_result
+					ck = cr.closest_match.genome.key
+					cand = {w.genomes[gi]['key']: gi for gi in exp['closest_candidates']}
+					ctx.case(('e2e-api', wi, sh['sub'], qi), nontrivial=True)
+					ctx.count('e2e_api_queries')
+					ww = dict(world=desc, query=qi)
+					if ck not in cand or float(cr.closest_match.distance) != exp['dmin']:
+						ctx.violation('closest-not-minimum', f'API: closest {ck} d={cr.closest_match.distance!r}; minimum {exp["dmin"]!r} at {sorted(cand)}', ww)
+						continue
+					e = exp['per'][cand[ck]]
+					got = dict(pred=None if cr.predicted_taxon is None else cr.predicted_taxon.key, next=None if cr.next_taxon is None else cr.next_taxon.key,
+					           report=None if item.report_taxon is None else item.report_taxon.key)
+					want = dict(pred=None if e['pred'] is None else w.tinfo[e['pred'].i]['key'], next=None if e['next'] is None else w.tinfo[e['next'].i]['key'],
+					            report=None if e['report'] is None else w.tinfo[e['report'].i]['key'])
+					if exp['dmin'] in [t.thr for t in w.taxa]:
+						ctx.count('e2e_distance_exactly_on_a_threshold')
+					if e['next'] is not None and not e['next'].report:
+						ctx.count('e2e_next_taxon_is_a_hidden_one')
+					for f in ('pred', 'next', 'report'):
+						if got[f] != want[f]:
+							mech = {'pred': 'prediction-wrong', 'report': 'report-taxon-wrong'}.get(f) or ('next-taxon-without-threshold' if got[f] and key2t[got[f]].thr is None else 'next-taxon-wrong')
+							ctx.violation(mech, f'API: {f} = {got[f]} expected {want[f]} (closest {ck}, d={exp["dmin"]!r})', ww)
+					if (cr.primary_match is not None) != (want['pred'] is not None):
+						ctx.violation('primary-match', 'API: primary match presence differs from prediction presence', ww)
 		finally:
 			db.signatures.close()
 			db.session.close()
@@ -300,7 +323,7 @@ def run_shard(sh, ctx):
 
 def finalize(merged, tier, seed, inconclusive):
 	c = merged['counters']
-	for n in ['lineages', 'lineages_with_thresholdless_leaf', 'distance_exactly_on_threshold', 'tied_minimum', 'e2e_api_queries', 'e2e_cli_commands', 'e2e_distance_exactly_on_a_threshold', 'distance_is_the_single_precision_value_of_a_threshold', 'lineages_deeper_than_recursion_limit', 'preceding_calls:keywords', 'e2e_next_taxon_is_a_hidden_one']:
+	for n in ['lineages', 'lineages_with_thresholdless_leaf', 'distance_exactly_on_threshold', 'tied_minimum', 'e2e_api_queries', 'e2e_cli_commands', 'e2e_distance_exactly_on_a_threshold', 'distance_is_the_single_precision_value_of_a_threshold', 'lineages_deeper_than_recursion_limit', 'preceding_calls:keywords', 'e2e_next_taxon_is_a_hidden_one', 'e2e_worlds_with_constructed_tie_between_lineages', 'forest_report_flags_given_as:numpy']:
 		if c.get(n, 0) == 0:
 			inconclusive.append(f'class never observed: {n}')
 	return dict(exhaustive=True, max_depth=max(merged['sets'].get('depths', {0})),
